@@ -29,7 +29,7 @@ logging.disable(logging.CRITICAL)
 ENCODED = [patching.patch_obj, patches.Patch.as_json_patch, application.apply, application.patch_and_check,
            processing.process_resource_event]
 META = {
-    'bounds': 'patch template: metadata.annotations.k / spec.f / status.s each absent|set|delete(null); fns subset of {add own finalizer, '
+    'bounds': 'h_plan also on objects without any status stanza (cells no_status). patch template: metadata.annotations.k / spec.f / status.s each absent|set|delete(null); fns subset of {add own finalizer, '
               'remove own finalizer, append an item to status.items}; status subresource yes/no; a foreign write (adds a finalizer or edits '
               'spec) before request i in 0..3 or a 404 from request i on; one object.',
     'outside': 'timeouts/5xx on the requests (C12); more than 3 fns; strategic-merge semantics of lists',
